@@ -37,6 +37,7 @@ def run(ctx):
     ctx.rule(purity)
     ctx.rule(threshold_live)
     ctx.rule(fc.gabor_supports, "R-C06-gabor-support", ("freq",))
+    ctx.rule(fc.banks_stateless, "R-C06-pure")
 
 
 def halflen(ctx, R="R-C06-halflen"):
@@ -67,7 +68,7 @@ def nyquist_bound(ctx, R="R-C06-nyquist-bound"):
     prog = ctx.prog
     for name in fc.BANKS:
         c, f, g, rnode, ev = fc.range_guard(prog, name)
-        sf, heff = fc.effective_high(ev)
+        sf, heff = fc.effective_high(ev, fc.layout_value(prog, name, f, ev))
         bad = []
         pts = 0
         for env in fc.grid():
